@@ -248,7 +248,7 @@ func (p *hProfile) genUpdate(t *rapid.T, view *hView, ns string) (bson.D, bson.A
 	gen.WithHint(gen.HintOf(view.allDocs(ns)...), func() {
 		if len(p.tinyVals) > 0 && rapid.IntRange(0, 9).Draw(t, "tinyupd") < 6 {
 			// move values around among the small pool (collisions on indexed fields)
-			op := rapid.SampledFrom([]string{"$set", "$set", "$set", "$unset", "$inc", "$push", "$addToSet", "$pull"}).Draw(t, "top")
+			op := rapid.SampledFrom([]string{"$set", "$set", "$set", "$unset", "$inc", "$push", "$addToSet", "$pull", "$pushEach"}).Draw(t, "top")
 			k := rapid.SampledFrom([]string{"a", "b", "c"}).Draw(t, "tk")
 			if (op == "$set" || op == "$inc" || op == "$unset") && rapid.IntRange(0, 999).Draw(t, "deepk")%6 == 3 {
 				// through an array into its elements (documents inside arrays)
@@ -256,6 +256,25 @@ func (p *hProfile) genUpdate(t *rapid.T, view *hView, ns string) (bson.D, bson.A
 			}
 			var v interface{} = rapid.SampledFrom(p.tinyVals).Draw(t, "tval")
 			switch op {
+			case "$pushEach":
+				// $push with modifiers on (mostly) existing arrays: windows
+				// that cut, positions inside, sorts
+				op = "$push"
+				each := bson.A{rapid.SampledFrom(p.tinyVals).Draw(t, "pe1")}
+				if rapid.Bool().Draw(t, "pe2") {
+					each = append(each, rapid.SampledFrom(p.tinyVals).Draw(t, "pe2v"))
+				}
+				mod := bson.D{{Key: "$each", Value: each}}
+				if rapid.IntRange(0, 3).Draw(t, "pepos") == 0 {
+					mod = append(mod, bson.E{Key: "$position", Value: rapid.SampledFrom([]interface{}{int32(0), int32(1), int32(-1)}).Draw(t, "peposv")})
+				}
+				if rapid.IntRange(0, 3).Draw(t, "pesort") == 0 {
+					mod = append(mod, bson.E{Key: "$sort", Value: rapid.SampledFrom([]interface{}{int32(1), int32(-1)}).Draw(t, "pesortv")})
+				}
+				if rapid.IntRange(0, 3).Draw(t, "peslice") > 0 {
+					mod = append(mod, bson.E{Key: "$slice", Value: rapid.SampledFrom([]interface{}{int32(1), int32(2), int32(3), int32(-1), int32(-2), int32(0)}).Draw(t, "peslicev")})
+				}
+				v = mod
 			case "$unset":
 				v = ""
 			case "$inc":
